@@ -328,6 +328,53 @@ class Expand(_Opts, DisjointUnionStrategy[WC, W]):
         return tuple(res)
 
 
+class ExpandTwice(_Opts, DisjointUnionStrategy[WC, W]):
+    """C(p) = {p} + sum_{a != x} C(p a) + {p x} + sum_a C(p x a): the expansion with the letter
+    x = alphabet[which] expanded once more.  In a pack next to Expand it gives classes several
+    rules to choose from (several candidate specifications per universe)."""
+
+    OPTS = ("which", "drop")
+
+    def __init__(self, which=0, drop=False, **kw):
+        self.which, self.drop = int(which), bool(drop)
+        super().__init__(**kw)
+
+    def decomposition_function(self, c):
+        if c.just_prefix or c.right is not None or c.proper:
+            return None
+        x = c.alphabet[self.which % len(c.alphabet)]
+        kids = [c.with_(just_prefix=True, stats=atom_stats(c, c.prefix, self.drop))]
+        kids += [c.with_(prefix=c.prefix + a) for a in c.alphabet if a != x]
+        kids.append(c.with_(prefix=c.prefix + x, just_prefix=True, stats=atom_stats(c, c.prefix + x, self.drop)))
+        kids += [c.with_(prefix=c.prefix + x + a) for a in c.alphabet]
+        return tuple(kids)
+
+    def extra_parameters(self, c, children=None):
+        if children is None:
+            children = self.decomposition_function(c)
+            if children is None:
+                raise StrategyDoesNotApply("Strategy does not apply")
+        return tuple({k: k for k in ch.extra_parameters} for ch in children)
+
+    def formal_step(self):
+        return f"expand twice(which={self.which},drop={self.drop})"
+
+    def forward_map(self, c, word, children=None):
+        if children is None:
+            children = self.decomposition_function(c)
+        res = [None] * len(children)
+        best = None
+        for i, ch in enumerate(children):
+            if ch.just_prefix:
+                if word == ch.prefix:
+                    best = i
+                    break
+            elif word[: len(ch.prefix)] == ch.prefix and (best is None or len(ch.prefix) > len(children[best].prefix)):
+                best = i
+        res[best] = word
+        return tuple(res)
+
+
 def safe_index(c):
     """Length of the part of the prefix that can take part in no occurrence reaching
     beyond the prefix (class assumed non-empty)."""
@@ -751,7 +798,7 @@ class PrefixVerified(VerificationStrategy[WC, W]):
 PACK_DEFAULTS = {
     "drop": False, "order": 0, "atom_last": False, "split": False, "plus": False, "swap": False,
     "sym": False, "inferral": [], "layout": "initial", "factory": None,
-    "ver": "stat", "iterative": False, "nest": 0,
+    "ver": "stat", "iterative": False, "nest": 0, "twice": [], "both": False,
 }
 
 
@@ -791,12 +838,16 @@ def make_pack(opts=None):
                "rename": RenameStats}
     inferral = [inf_map[name]() for name in o["inferral"]]
     split_pair = SplitPair(bar_first=o["order"] == 1)
+    twice = [ExpandTwice(which=w, drop=o["drop"]) for w in o.get("twice") or ()]
+    if o.get("both") and o["factory"] is None:
+        # the one-step expansion in its other form as well (plain and plus-mode side by side)
+        twice.append(Expand(drop=o["drop"], order=o["order"], plus=not o["plus"]))
     if o["layout"] == "initial":
-        initial, sets = [split_pair, remove], [[expand]]
+        initial, sets = [split_pair, remove], [[expand] + twice]
     elif o["layout"] == "sets":
-        initial, sets = [split_pair], [[remove], [expand]]
+        initial, sets = [split_pair], [[remove], [expand] + twice]
     else:
-        initial, sets = [split_pair], [[remove, expand]]
+        initial, sets = [split_pair], [[remove, expand] + twice]
     if o["ver"] == "stat":
         ver = [StatAtom()]
     elif o["ver"] == "atom":
